@@ -3526,6 +3526,10 @@ GRgetlutid(int32 riid, int32 lut_index)
     if (HAatom_group(riid) != RIIDGROUP || lut_index != 0)
         HGOTO_ERROR(DFE_ARGS, FAIL);
 
+    /* the RI ID must still designate an image */
+    if (HAatom_object(riid) == NULL)
+        HGOTO_ERROR(DFE_RINOTFOUND, FAIL);
+
     ret_value = (riid);
 
 done:
